@@ -906,7 +906,11 @@ func contextAfterText(c context, s []byte) (context, int) {
 	}
 	// Save the link element's rel attribute value if we are parsing it for the first time.
 	// Only the first rel attribute of the element counts, as in a browser.
-	if c.state == stateAttr && c.element.name == "link" && attrName == "rel" && c.linkRel == "" {
+	if c.state == stateAttr && c.element.name == "link" && c.linkRel == "" && (c.attr.continued || len(c.attr.names) > 0) {
+		// The name of the attribute is not known for certain, e.g. `r{{/* c */}}el="..."` or
+		// `{{if .C}}rel{{else}}title{{end}}="..."`: it could be the rel attribute.
+		ret.linkRel = unknownLinkRel
+	} else if c.state == stateAttr && c.element.name == "link" && attrName == "rel" && c.linkRel == "" {
 		if c.attr.dynamic || c.attr.ambiguousValue {
 			// The value is not known at parse time.
 			ret.linkRel = unknownLinkRel
